@@ -93,6 +93,12 @@ func GenGenericModule(r *core.Rng, size int) *Stmt {
 			S("rpc", "r-both", &Stmt{Kw: "input", Block: true, Kids: []*Stmt{S("leaf", "x", S("type", "string"))}}, &Stmt{Kw: "output", Block: true, Kids: []*Stmt{S("leaf", "y", S("type", "string"))}}),
 			S("notification", "n-bare"))
 	}
+	// key and unique arguments whose names are separated by more than one blank: the argument is what was written
+	if r.Chance(1, 3) {
+		sep := core.Pick(r, []string{"  ", "\n", "\t", "   "})
+		m.Add(S("list", "kl", S("key", "k1"+sep+"k2"), S("leaf", "k1", S("type", "string")), S("leaf", "k2", S("type", "string")),
+			S("leaf", "u1", S("type", "string")), S("leaf", "u2", S("type", "string")), S("unique", "u1"+sep+"u2")))
+	}
 	// deviations with every deviate kind: the keyword of the statement is "deviate", whatever its argument
 	if r.Chance(1, 3) {
 		m.Add(S("deviation", "/gm:a/gm:b", S("deviate", "add", S("units", core.Pick(r, argPool))), S("deviate", "delete", S("units", "v")), S("deviate", "replace", S("units", "w"))),
